@@ -353,8 +353,17 @@ def check_valid(case):
 
 def strat_valid():
     from hypothesis import strategies as st
+    block = st.sampled_from([['block', 'pass'], ['block', 'x = 1'], ['block', 'self._N = getattr(self, "_N", 0) + 1']])
+
+    def with_blocks(prog, extra, where):
+        out = list(prog)
+        for b, w in zip(extra, where):
+            out.insert(w % (len(out) + 1), b)
+        return out
+    progs = st.tuples(G.programs(max_statements=4, blocks=True, named_periods=True, max_leaves=5), st.lists(block, max_size=3),
+                      st.lists(st.integers(0, 5), min_size=3, max_size=3)).map(lambda x: with_blocks(*x))
     return st.fixed_dictionaries({
-        'prog': G.programs(max_statements=4, blocks=True, named_periods=True, max_leaves=5),
+        'prog': progs,
         'tape': G.tapes(30),
         'canary': st.one_of(st.none(), st.lists(st.integers(0, 3), min_size=1, max_size=3)),
     })
